@@ -137,32 +137,43 @@ Proof. vm_compute. reflexivity. Qed.
 Lemma skipn_length_le {A} k (l : list A) : (length (skipn k l) <= length l)%nat.
 Proof. rewrite skipn_length. lia. Qed.
 
+Lemma prog_chunks fuel len c0 (r : list byte) :
+  c0 <= len -> (c0 = len \/ (1 <= c0 /\ len < c0 * 2 ^ N.of_nat fuel)) ->
+  prog (read_chunks fuel len c0 (N.of_nat (length r)) ;;;
+        ret (firstn (N.to_nat len) r, skipn (N.to_nat len) r)) r 0.
+Proof.
+  intros L G m o m' E. unfold bind in E.
+  pose proof (read_chunks_safe fuel len c0 (N.of_nat (length r)) m L G) as S.
+  destruct (read_chunks fuel len c0 (N.of_nat (length r)) m) as [[[]| | |] m1]; cbn [fst] in S.
+  - unfold ret in E. injection E as <- <-. split; [apply safe_ok|].
+    intros a r' Eo. injection Eo as <- <-. rewrite skipn_length. lia.
+  - injection E as <- <-. split; [apply safe_err|discriminate].
+  - exfalso. exact (proj1 S eq_refl).
+  - exfalso. exact (proj2 S eq_refl).
+Qed.
+
+Lemma prealloc_fuel len : len <= 4294967295 ->
+  N.min len max_prealloc = len \/ (1 <= N.min len max_prealloc /\ len < N.min len max_prealloc * 2 ^ N.of_nat 64).
+Proof.
+  intro H. rewrite pow_fuel64. unfold max_prealloc. lia.
+Qed.
+
+Lemma prog_short len (r : list byte) : prog (lift (read_short (N.to_nat len) r)) r 0.
+Proof.
+  apply prog_lift. intros a r' H.
+  unfold read_short in H. destruct (N.to_nat len); [injection H as <- <-; lia|].
+  destruct r; [discriminate|]. injection H as <- <-. rewrite skipn_length. cbn [length]. lia.
+Qed.
+
 Lemma prog_dec_bytes bs : prog (dec_bytes c bs) bs 1.
 Proof.
-  unfold dec_bytes. remember 64%nat as fuel eqn:EF.
-  assert (PF : 2 ^ N.of_nat fuel = 18446744073709551616) by (rewrite EF; apply pow_fuel64). clear EF.
-  apply (prog_bind _ _ _ 1%nat 0%nat); [apply prog_dec_uint|].
+  unfold dec_bytes. apply (prog_bind _ _ _ 1%nat 0%nat); [apply prog_dec_uint|].
   intros len r L. cbv beta iota.
   destruct (N.ltb_spec 4294967295 len) as [BIG|SMALL]; [apply prog_fail|].
   destruct (fix_bytes c).
   - apply prog_tick. apply prog_if; [apply prog_fail|].
-    intros m o m' E. unfold bind in E.
-    match type of E with context [read_chunks ?f ?a ?b ?d m] =>
-      assert (S : safe (fst (read_chunks f a b d m)));
-      [|destruct (read_chunks f a b d m) as [[[]| | |] m1]] end.
-    { apply read_chunks_safe; [lia|]. unfold max_prealloc.
-      destruct (N.le_gt_cases len 4096); [left; lia|right]. rewrite N.min_r by lia. split; [lia|].
-      rewrite PF. clear E. lia. }
-    + cbv beta in E. unfold ret in E. injection E as <- <-. split; [apply safe_ok|].
-      intros a r' Eo. injection Eo as <- <-. pose proof (skipn_length_le (N.to_nat len) r). lia.
-    + injection E as <- <-. split; [apply safe_err|discriminate].
-    + exfalso. exact (proj1 S eq_refl).
-    + exfalso. exact (proj2 S eq_refl).
-  - apply prog_tick. apply prog_if; [apply prog_ret; lia|].
-    apply prog_lift. intros a r' H.
-    unfold read_short in H. destruct (N.to_nat len); [injection H as <- <-; lia|].
-    destruct r; [discriminate|]. injection H as <- <-.
-    rewrite skipn_length. cbn [length]. clear. lia.
+    apply prog_chunks; [apply N.le_min_l|apply prealloc_fuel; exact SMALL].
+  - apply prog_tick. apply prog_if; [apply prog_ret; rewrite Nat.add_0_r; apply Nat.le_refl|apply prog_short].
 Qed.
 
 (* ---- loops *)
